@@ -23,6 +23,30 @@ from . import h11 as h
 ANCHOR_FILES = ('iv_wait.c', 'iv_signal.c')
 
 
+def _feasible_null_derefs(f, reps):
+    """generic.null_contradiction is a may-analysis over the CFG: it also follows paths that a value computed from
+    the same test rules out (`what = p == NULL ? STRANGER : ...; switch (what) { case ROUTED: p->...`).  Keep the
+    reports that a path-sensitive abstract execution of the function (h11.Explorer: integers concrete, pointers
+    NULL / non-NULL, every branch it cannot decide followed both ways) reaches with the pointer NULL.  When the
+    exploration is not conclusive every report is kept."""
+    want = {}
+    for (e, v, acc) in reps:
+        want.setdefault((e['_b'], e['_i']), set()).add(v)
+
+    seen = set()
+
+    def observe(e, env, facts, val):
+        for v in want.get((e.get('_b'), e.get('_i')), ()):
+            if env.get(v) == 0:
+                seen.add((e['_b'], e['_i'], v))
+        return None
+    try:
+        h.Explorer(f, max_states=20000).run((f.entry, 0), [({}, frozenset())], observe)
+    except AnalysisBroken:
+        return reps
+    return [(e, v, acc) for (e, v, acc) in reps if (e['_b'], e['_i'], v) in seen]
+
+
 def null_rule(ctx, rid, files):
     n = 0
     for f in sorted(ctx.prog.all_funcs(), key=lambda f: f.q):
@@ -32,6 +56,8 @@ def null_rule(ctx, rid, files):
         reps, ncand = generic.null_contradiction(f)
         if not ncand:
             continue
+        if reps:
+            reps = _feasible_null_derefs(f, reps)
         byvar = {}
         for (e, v, acc) in reps:
             byvar.setdefault(v, []).append((e, acc))
@@ -217,13 +243,34 @@ def descent(ctx, rid, tree_name):
             raise AnalysisBroken('reaper: lookup step not found')
         n += 1
         # the sought key is the pid the reap call returned
-        rg = set()
-        for e in g.events():
-            if e['ev'] == 'store' and 'rhs' in e and h.lval(e['lhs']).get('k') == 'var':
-                r = strip(e['rhs'])
-                if isinstance(r, dict) and r.get('k') == 'call' and r.get('callee') in h.REAP:
-                    rg.add(v.group(h.lval(e['lhs'])['name']))
-        bad = [s for (nd, s, side) in keys if not (root_var(s) is not None and strip(s).get('k') == 'var' and v.group(strip(s)['name']) in rg)]
+        # ... through copies and through fields of a record that groups what was reaped (`r->pid = pid; ... r->pid < p->pid`)
+        rg, rf = set(), set()
+        stores = [e for e in g.events() if e['ev'] == 'store' and e.get('op') == '=' and 'rhs' in e]
+
+        def from_reap(x):
+            x = strip(x)
+            if not isinstance(x, dict):
+                return False
+            if x.get('k') == 'call':
+                return x.get('callee') in h.REAP
+            if x.get('k') == 'var':
+                return v.group(x['name']) in rg
+            if x.get('k') == 'member':
+                return last_member(x) in rf
+            return False
+        for _ in range(6):
+            n0 = (len(rg), len(rf))
+            for e in stores:
+                if not from_reap(e['rhs']):
+                    continue
+                l = h.lval(e['lhs'])
+                if l.get('k') == 'var':
+                    rg.add(v.group(l['name']))
+                elif l.get('k') == 'member' and last_member(l) != h.PID and l.get('record') != h.REC:
+                    rf.add(last_member(l))
+            if (len(rg), len(rf)) == n0:
+                break
+        bad = [s for (nd, s, side) in keys if not from_reap(s)]
         ctx.ob(rid, 'lookup:sought-is-reaped-pid', not bad, loc=(bad[0] if bad else keys[0][1]).get('loc') or reaps[0]['loc'],
                detail='the key the tree is searched for is the value waitpid/wait4 returned', fn=v.root.q)
         # the tree read is the tree written
@@ -421,10 +468,11 @@ def dead_pairing(ctx):
         cleared = [fa for (_, fa) in paths if _grp(fa, 'F0')]
         ctx.ob(rid, 'reaper:never-clears-flag', not cleared, loc=loc, detail='the reaper never resets a dead flag', fn=q)
     # registration clears the flag before the pid enters the set
+    dead = h.dead_values(prog)
     for v, inserts in h.contexts(prog, 'is_insert'):
         def tr(e, s):
             if v.is_flag_store(e):
-                return e.get('op') == '=' and 'rhs' in e and canon(e['rhs']) in ('0', 'NULL')
+                return True if h.clears_dead(e, dead) else (False if e.get('op') != '&=' else s)
             return s
         _, ev_in = forward(v.g, False, tr, lambda a, b: a and b)
         ok, e0 = _agg(inserts, lambda e: bool(ev_in.get((e['_b'], e['_i']))))
@@ -478,13 +526,24 @@ def records(ctx):
     ctx.ob(rid, 'reaper:record-not-freed-once-queued', not dbl, loc=loc0,
            detail='a record is consumed once: never freed after it was queued, never queued or freed twice', fn=q0)
     # records taken off a queue
-    alllocs = set()
+    need = {}         # roots that must take records off a queue: role -> [root names] / roots in which an unlink was found
+    have = set()
+    for v, _ in h.contexts(prog, 'is_wait_callback'):
+        need.setdefault('delivery', []).append(v.root.q)              # hands the queued statuses to the handler
+    for v, _ in h.contexts(prog, 'is_delete'):
+        if not any(v.is_reap(e) for e in v.g.events()) and v.root.q not in need.get('delivery', []):
+            need.setdefault('purge', []).append(v.root.q)             # unregistration drops what is still queued
     for v in h.views(prog):
         g = v.g
         conts = [e for e in g.events() if e['ev'] == 'store' and 'rhs' in e and h.lval(e['lhs']).get('k') == 'var'
                  and isinstance(strip(e['rhs']), dict) and strip(e['rhs']).get('k') == 'container_of'
                  and (strip(e['rhs']).get('record'), strip(e['rhs']).get('member')) == h.EVLINK]
+        # a root owns a status record from the moment it designates it (`we = container_of(link, wait_event, list)`:
+        # the first / next element of a queue) or unlinks it; whether the record is also unlinked is not this
+        # rule's business (a stolen local list may be walked and freed without unlinking)
         cls = {}
+        for c in conts:
+            cls[id(c)] = ('take', v.group(h.lval(c['lhs'])['name']))
         for d in g.events():
             if not is_call(d, ('iv_list_del', 'iv_list_del_init')) or not d.get('args'):
                 continue
@@ -496,28 +555,68 @@ def records(ctx):
                     if names_of(strip(c['rhs'])['e']) & names_of(d['args'][0]) or canon(v.origin(strip(c['rhs'])['e'])) == canon(v.origin(d['args'][0])):
                         grp = v.group(h.lval(c['lhs'])['name'])
             if grp is not None:
-                cls[id(d)] = grp
+                cls[id(d)] = ('unlink', grp)
         sites = {}
+        for d in g.events():
+            # `free(container_of(link, wait_event, list))`: taken and freed in one expression
+            if is_call(d, 'free') and d.get('args') and v.reached(d):
+                a = strip(d['args'][0])
+                if isinstance(a, dict) and a.get('k') == 'container_of' and (a.get('record'), a.get('member')) == h.EVLINK:
+                    sites.setdefault(d['loc'], []).append(True)
         if cls:
             leaked = h.unlink_scenario(v, lambda e: cls.get(id(e)))
             for d in g.events():
-                if id(d) in cls:
+                if id(d) in cls and v.reached(d):
                     sites.setdefault(d['loc'], []).append(d['loc'] not in leaked)
         if sites:
-            alllocs |= set(sites)
+            have.add(v.root.q)
             what = h.role_name(prog, v)
             bad = sorted(l for l, oks in sites.items() if not all(oks))
             ctx.ob(rid, '%s:unlinked-record-freed' % what, not bad, loc=bad[0] if bad else sorted(sites)[0],
                    detail='each status record taken off a queue is freed before the next one is taken / the function returns', fn=v.root.q)
-    if len(alllocs) < 2:
-        raise AnalysisBroken('status record unlink sites: %d found (delivery and purge expected)' % len(alllocs))
+    # the anchor: records are taken off a queue where they are delivered and where they are purged (the same
+    # source statement may serve both, e.g. a shared dequeue helper: count per role, not per location)
+    for role in ('delivery', 'purge'):
+        if not need.get(role):
+            raise AnalysisBroken('status records: no %s root found' % role)
+        missing = [q for q in need[role] if q not in have]
+        if missing:
+            raise AnalysisBroken('status records: no queued record (container_of / iv_list_del of a wait_event) is taken in the %s root %s'
+                                 % (role, missing[0].split(':')[-1]))
 
 
 # --------------------------------------------------------------------------
 # R-C11f
 # --------------------------------------------------------------------------
 
+def _stale_local(prog, emit):
+    """Fallback for the borrowed stale-after-callback rule when its owner cannot be run on this tree because of
+    objects of *other* kinds: the same core analysis (analyses.stale_after_callback), on the roots of iv_wait.c only."""
+    from ..analyses import stale_after_callback, callback_kind
+    for v in h.views(prog):
+        if not any(v.is_wait_callback(e) for e in v.g.events()):
+            continue
+        is_cb = lambda e: (callback_kind(e) or (None, None))[1] if (callback_kind(e) or (None,))[0] == 'callback' else None
+        reps, objvars, markers = stale_after_callback(v.g, is_cb)
+        byvar = {}
+        for (e, var, acc, cb) in reps:
+            byvar.setdefault(var, []).append((e, acc, cb))
+        for var in sorted(objvars):
+            bad = byvar.get(var, [])
+            e0 = bad[0][0] if bad else None
+            emit('R-C01a', '%s:%s' % (v.root.name, var), not bad, loc=e0['loc'] if e0 else v.root.loc,
+                 detail=('`%s` (%s) is used after the callback at %s without reassignment or marker test: %s'
+                         % (var.split('@')[0], objvars[var], relpath(bad[0][2]), ', '.join(sorted({a for _, a, _ in bad})))) if bad else
+                        '%s *%s: never used after a callback site without reassignment / marker test' % (objvars[var], var.split('@')[0]),
+                 path=path_to(v.g, e0) if e0 else None, fn=v.root.q)
+
+
 def delivery(ctx):
+    """Borrowed from C01 (c01.holders / c01.stale), restricted to the child-wait kind: the holders table is
+    narrowed to the marker holder(s) of iv_wait_interest before c01.holders runs, so a holder of another kind
+    (descriptor, inotify, popen, ...) that a refactoring moved cannot break this rule; c01.stale is run as a whole
+    but only the contexts that call a wait handler are kept, and an ANALYSIS-BROKEN it raises for another kind is
+    answered by running the same analysis on the roots of iv_wait.c alone."""
     import types
     from . import c01
     prog = ctx.prog
@@ -532,14 +631,41 @@ def delivery(ctx):
     if not names:
         raise AnalysisBroken('no call through iv_wait_interest.handler found')
     sub = []
-    proxy = types.SimpleNamespace(prog=prog, ob=lambda rid, inst, ok, **kw: sub.append((rid, inst, ok, kw)),
-                                  exempt=lambda *a, **k: None)
-    c01.holders(proxy)
-    c01.stale(proxy)
-    n = 0
+    emit = lambda rid, inst, ok, **kw: sub.append((rid, inst, ok, kw))
+    proxy = types.SimpleNamespace(prog=prog, ob=emit, exempt=lambda *a, **k: None)
+    mine = lambda sig: isinstance(sig, tuple) and len(sig) == 3 and sig[0] == 'marker' and sig[1] == h.REC
+    table = getattr(c01, 'HOLDERS', None)
+    broken = []
+    if isinstance(table, dict) and any(mine(k) for k in table):
+        for sig in sorted(k for k in table if mine(k)):
+            c01.HOLDERS = {sig: table[sig]}
+            try:
+                c01.holders(proxy)
+            except AnalysisBroken as ex:
+                broken.append(str(ex))
+            finally:
+                c01.HOLDERS = table
+    else:
+        try:
+            c01.holders(proxy)
+        except AnalysisBroken as ex:
+            broken.append(str(ex))
+    wanted = lambda rid, inst: rid == 'R-C01a' and inst.split(':')[0] in names
+    try:
+        c01.stale(proxy)
+    except AnalysisBroken as ex:
+        # raised for the library as a whole (a handler field of another kind vanished, a foreign root does not inline)
+        if not any(wanted(rid, inst) for rid, inst, ok, kw in sub):
+            _stale_local(prog, emit)
+    n, seen = 0, set()
     for rid, inst, ok, kw in sub:
-        if inst.startswith('holder:marker iv_wait_interest') or (rid == 'R-C01a' and inst.split(':')[0] in names):
+        if (rid == 'R-C01c' and inst.startswith('holder:marker ' + h.REC)) or wanted(rid, inst):
+            if (inst, ok) in seen:
+                continue
+            seen.add((inst, ok))
             n += 1
             ctx.ob('R-C11f', inst, ok, **kw)
+    if broken:
+        raise AnalysisBroken('; '.join(broken))
     if n < 2:
         raise AnalysisBroken('wait delivery marker rules not found')
